@@ -47,4 +47,8 @@ def run(ctx, rep):
     rep.run(RP.rule_templates_are_constant, ctx, rep, "W10")
     # W11: the docstring literal - the one place where arbitrary input text becomes a C++ token - is well-formed for every text
     rep.run(RX.rule_docstring_literal_wellformed, ctx, rep, "W11")
+    # W12: the emitters run on sample declarations: the lambda passes on exactly the parameters it declares
+    rep.run(RP.rule_lambda_names_by_evaluation, ctx, rep, "W12")
+    # W13: a const member is registered def_readonly (def_readwrite of a const member does not compile) (= C04 B5)
+    rep.run(RP.rule_property_polarity, ctx, rep, "W13")
     rep.run(RF.rule_locals_defined, ctx, rep, "U1", packages=("gtwrap/pybind_wrapper.py",), min_functions=3)
